@@ -114,6 +114,18 @@ CHECKS["C14"] = dict(
    note=TB + "Letters are compared case-insensitively; Biopython is only used to guard the transcription of the codon table.",
    technique="TLA+ table-driven definitions checked by TLC; exhaustive small-scope states replayed into code",
    design="6/C14")
+CHECKS["C15"] = dict(
+   text="spec/MC_C15.tla runs the L1 chunked reader of ChunkReader.tla on a file whose entry `bad` violates its format: the chunk "
+        "containing it is never delivered and cutting it raises an error at line counter + position in the chunk; TLC checks "
+        "ErrLineRight, NeverDelivered, NeverCompletes for every configuration (entry shapes x final newline x every chunk size x "
+        "seek/carry x offending position). Every configuration is replayed byte-exactly (BED3 non-numeric / wrong column count, "
+        "two-line FASTA marker, FASTQ marker / '+') lazily and eagerly; executions on BED6, narrowPeak, VCF, bedGraph and real "
+        "plain/gzip files with six violation classes are recorded and validated by TLC against the L0 Error guards (Trace_C01 + "
+        "ChunkL0); the reported line must be the same for every chunk size and mode of one file.",
+   note=TB + "A diagnosed line is accepted if it is any line of the offending record. One recorded known finding: a line with an extra column "
+        "is accepted when chunk boundaries isolate it.",
+   technique="TLA+ L1 reader model with fault injection checked by TLC; replay of every configuration + TLC trace validation of recorded reads",
+   design="6/C15")
 PENDING = {}
 def main():
     props = [json.loads(l)["id"] for l in open(os.path.join(HERE, "properties.jsonl"))]
